@@ -353,7 +353,7 @@ WRITE_FIRST = {'numpy.copyto', 'numpy.put', 'numpy.place', 'numpy.putmask', 'num
                'numpy.ndarray.sort', 'numpy.ndarray.fill'}
 BOOL_FUNCS = {'numpy.allclose', 'numpy.array_equal', 'numpy.array_equiv', 'numpy.all', 'numpy.any', 'numpy.isrealobj', 'numpy.iscomplexobj',
               'numpy.may_share_memory', 'numpy.shares_memory', 'numpy.isscalar'}
-FRESH_FUNCS = {'numpy.dot', 'numpy.matmul', 'numpy.einsum', 'numpy.tensordot', 'numpy.kron', 'numpy.outer', 'numpy.inner', 'numpy.vdot', 'numpy.trace',
+FRESH_FUNCS = {'numpy.multiply.outer', 'numpy.dot', 'numpy.matmul', 'numpy.einsum', 'numpy.tensordot', 'numpy.kron', 'numpy.outer', 'numpy.inner', 'numpy.vdot', 'numpy.trace',
                'numpy.sum', 'numpy.prod', 'numpy.abs', 'numpy.absolute', 'numpy.exp', 'numpy.sqrt', 'numpy.log', 'numpy.conj', 'numpy.conjugate',
                'numpy.linalg.eig', 'numpy.linalg.eigh', 'numpy.linalg.eigvals', 'numpy.linalg.eigvalsh', 'numpy.linalg.inv', 'numpy.linalg.norm',
                'numpy.linalg.svd', 'numpy.linalg.qr', 'numpy.linalg.det', 'numpy.linalg.matrix_power', 'numpy.linalg.solve',
@@ -436,6 +436,8 @@ def intercept(ip, dotted, args, kw):
         return NArr(Buf('lib'), (x.shape[0], x.shape[0]) if len(x.shape) == 1 else (x.shape[0],), 'C')
     if dotted == 'numpy.kron' and len(args) == 2 and all(isinstance(a, NArr) and a.shape is not None and len(a.shape) == 2 for a in args):
         return NArr(Buf('lib'), (args[0].shape[0] * args[1].shape[0], args[0].shape[1] * args[1].shape[1]), 'C')
+    if dotted in ('numpy.multiply.outer', 'numpy.outer') and len(args) == 2 and all(isinstance(a, NArr) and a.shape is not None for a in args):
+        return NArr(Buf('lib'), tuple(args[0].shape) + tuple(args[1].shape), 'C')
     if dotted in FRESH_FUNCS:
         shp = a0.shape if (dotted in SAME_SHAPE and a0 is not None) else None
         r = NArr(Buf('lib'), shp, 'C' if shp is None or len(shp) > 1 else 'CF')
